@@ -143,7 +143,9 @@ pub fn check_case(ctx: &Ctx, case: &Case) -> bool {
     let res = if case.threads == 1 {
         run()
     } else {
-        // watchdog: a multi-threaded solve that does not return is a hang, not a machinery failure
+        // watchdog: a multi-threaded solve that does not return is a hang, not a machinery failure;
+        // one multi-threaded solve at a time (building thread pools concurrently is slow here)
+        let _gate = crate::multi::POOL_GATE.lock().unwrap_or_else(|e| e.into_inner());
         let (tx, rx) = mpsc::channel();
         std::thread::spawn(move || {
             let _ = tx.send(run());
